@@ -148,11 +148,12 @@ class FlagEval:
             # pure string methods on known constants
             if isinstance(e.func, ast.Attribute) and not e.keywords:
                 base = self.eval(e.func.value)
-                if isinstance(base, str) and e.func.attr in ("lower", "upper", "strip", "endswith", "startswith"):
+                if isinstance(base, str) and e.func.attr in ("lower", "upper", "strip", "rstrip", "lstrip", "endswith", "startswith", "splitlines", "isspace"):
                     args = [self.eval(a) for a in e.args]
                     if not any(is_top(a) for a in args):
                         try:
-                            return getattr(base, e.func.attr)(*args)
+                            r = getattr(base, e.func.attr)(*args)
+                            return tuple(r) if isinstance(r, list) else r  # constant folding of a pure str method
                         except Exception:
                             return TOP
             return self._opaque(e)
